@@ -2,7 +2,6 @@ package adapt
 
 import (
 	"fmt"
-	"strings"
 
 	"github.com/go-i2p/common/certificate"
 	"github.com/go-i2p/common/data"
@@ -47,15 +46,19 @@ func errStr(err error) string {
 	return err.Error()
 }
 
-// mappingAccepted: the library's embedding callers treat only the "data exists beyond length
-// of mapping" warning as benign; every other reported error means the mapping was not accepted.
-func mappingAccepted(errs []error) (bool, string) {
-	for _, e := range errs {
-		if !strings.Contains(e.Error(), "data exists beyond length of mapping") {
-			return false, e.Error()
+// mappingAccepted decides acceptance of a mapping parse without looking at error texts: no error
+// at all, or - the one benign situation, bytes following the mapping's declared extent - errors
+// together with a non-empty remainder while the declared extent on its own parses without error.
+func mappingAccepted(errs []error, in, rem []byte, reparse func(x []byte) []error) (bool, string) {
+	if len(errs) == 0 {
+		return true, ""
+	}
+	if len(rem) > 0 && len(rem) < len(in) {
+		if len(reparse(in[:len(in)-len(rem)])) == 0 {
+			return true, ""
 		}
 	}
-	return true, ""
+	return false, errs[0].Error()
 }
 
 func bytesSer(f func() []byte) func() ([]byte, error) {
@@ -121,12 +124,12 @@ func init() {
 	})
 	add("data.ReadMapping", "Mapping", func(in []byte) Parsed {
 		m, rem, errs := data.ReadMapping(in)
-		ok, e := mappingAccepted(errs)
+		ok, e := mappingAccepted(errs, in, rem, func(x []byte) []error { _, _, e := data.ReadMapping(x); return e })
 		return Parsed{OK: ok, Err: e, HasRem: true, Rem: rem, Ser: bytesSer((&m).Data), Val: m}
 	})
 	add("data.NewMapping", "Mapping", func(in []byte) Parsed {
 		m, rem, errs := data.NewMapping(in)
-		ok, e := mappingAccepted(errs)
+		ok, e := mappingAccepted(errs, in, rem, func(x []byte) []error { _, _, e := data.NewMapping(x); return e })
 		p := Parsed{OK: ok && m != nil, Err: e, HasRem: true, Rem: rem, Val: m}
 		if m != nil {
 			p.Ser = bytesSer(m.Data)
@@ -135,8 +138,12 @@ func init() {
 	})
 	add("data.ReadMappingValues", "MappingValues", func(in []byte) Parsed {
 		l, _ := data.NewIntegerFromInt(len(in)&0xffff, 2)
-		v, _, errs := data.ReadMappingValues(in, *l)
-		ok, e := mappingAccepted(errs)
+		v, rem, errs := data.ReadMappingValues(in, *l)
+		ok, e := mappingAccepted(errs, in, rem, func(x []byte) []error {
+			xl, _ := data.NewIntegerFromInt(len(x)&0xffff, 2)
+			_, _, e := data.ReadMappingValues(x, *xl)
+			return e
+		})
 		return Parsed{OK: ok && v != nil, Err: e, Val: v}
 	})
 	// ---- certificate / key certificate
